@@ -67,10 +67,11 @@ def has_duplicate_poses(arr):
 def build(arr, rng, stamped=True):
     mode = "se3" if rng.random() < .5 else "xyzq"
     assert stamped or not has_duplicate_poses(arr)
-    tr = gen.make_evo(arr, mode, stamped)
+    fl = gen.rand_flavour(rng)
+    tr = gen.make_evo(arr, mode, stamped, flavour=fl)
     if rng.random() < .3:
         tr.poses_se3, tr.positions_xyz, tr.orientations_quat_wxyz
-    exp = gen.read_views(gen.make_evo(arr, mode, stamped))
+    exp = gen.read_views(gen.make_evo(arr, mode, stamped, flavour=fl))
     return tr, exp, mode
 
 
